@@ -128,6 +128,8 @@ func rulesC20(p *Prog, r *Report) {
 	r.Assumptions = []string{"key prefixes are the package-level []byte variables of x/*/types; two different variables are different prefixes", "bank/auth state is exported by the SDK modules"}
 	keyArgAgreement(p, r, "R20.8", 20)
 	rekeyRule(p, r, "R20.10", 1)
+	keyLayoutRule(p, r, "R20.11", 5)
+	freshDecodeTargetRule(p, r, "R20.12", 20)
 
 	gens := p.Genesis()
 	type modGen struct{ init, export []*ssa.Function }
